@@ -4,6 +4,8 @@ use std::path::Path;
 pub mod c01;
 pub mod c02;
 pub mod c03;
+pub mod c04;
+pub mod c05;
 pub mod c17;
 
 macro_rules! props {
@@ -34,5 +36,7 @@ props! {
     "C01" => c01::C01,
     "C02" => c02::C02,
     "C03" => c03::C03,
+    "C04" => c04::C04,
+    "C05" => c05::C05,
     "C17" => c17::C17,
 }
